@@ -157,6 +157,9 @@ class ExprMixin:
         fr = self.fr
         if name in fr.env:
             return fr.env[name]
+        cl = getattr(fr, "closure", None)
+        if cl and name in cl:
+            return cl[name]
         # closures
         f = fr.func.parent
         mod = fr.func.module
@@ -1139,6 +1142,20 @@ class ExprMixin:
                 return Val("unknown", "call-of-empty"), preds
         if k == "superattr":
             return self.call_method(callee.args[0], callee.args[1], args, kwargs, preds)
+        if k == "rawfunc":
+            # the undecorated function called from inside its wrapper: f(self, *args, **kwargs)
+            f, r = callee.args
+            flat = []
+            for x in args:
+                if x.kind == "star" and x.args[0].kind in ("args", "tuple", "list"):
+                    flat.extend(x.args[0].args)
+                else:
+                    flat.append(x)
+            recv2 = r
+            if r is not None and flat:
+                recv2, flat = flat[0], flat[1:]
+            o, rv = self.inline(f, recv2, flat, kwargs, preds, skip_wrapper=True)
+            return rv, o
         if k == "inst":
             return self.call_method(callee, "__call__", args, kwargs, preds)
         o = self.node("call_unknown", preds, may_raise=True, callee=callee, recv=None, method=None, args=tuple(args), kwargs=self.kw_tuple(kwargs))
